@@ -756,6 +756,31 @@ func (e *Engine) SweepConcurrency(prop string) {
 				}
 				fn := contractKey(path, recv, fd.Name.Name)
 				covered := under[fn]
+				// uses of a protected map / slice / pointer field that keep it in place: indexing, ranging, len, delete,
+				// assignment to it. Any other use copies the reference out of the critical section (maps are modelled by
+				// value, so the executor would not see what happens through the copy).
+				inPlace := map[ast.Expr]bool{}
+				ast.Inspect(fd.Body, func(nd ast.Node) bool {
+					switch x := nd.(type) {
+					case *ast.IndexExpr:
+						inPlace[ast.Unparen(x.X)] = true
+					case *ast.RangeStmt:
+						inPlace[ast.Unparen(x.X)] = true
+					case *ast.AssignStmt:
+						for _, l := range x.Lhs {
+							inPlace[ast.Unparen(l)] = true
+						}
+					case *ast.CallExpr:
+						if id, ok := x.Fun.(*ast.Ident); ok && (id.Name == "len" || id.Name == "delete") && len(x.Args) > 0 {
+							inPlace[ast.Unparen(x.Args[0])] = true
+						}
+					case *ast.BinaryExpr:
+						// comparison with nil
+						inPlace[ast.Unparen(x.X)] = true
+						inPlace[ast.Unparen(x.Y)] = true
+					}
+					return true
+				})
 				ast.Inspect(fd.Body, func(nd ast.Node) bool {
 					switch x := nd.(type) {
 					case *ast.SendStmt:
@@ -813,6 +838,12 @@ func (e *Engine) SweepConcurrency(prop string) {
 							for _, f := range li.Protects {
 								if f == x.Sel.Name {
 									checked++
+									switch sel.Type().Underlying().(type) {
+									case *types.Map, *types.Slice, *types.Pointer:
+										if !inPlace[x] {
+											fail(pkg, x.Pos(), fn, "field "+li.Type+"."+f+" is protected by "+li.Mutex+" and refers to shared memory: here the reference itself is copied (assigned, passed or returned), so it can be used after the lock is released")
+										}
+									}
 									if !covered {
 										fail(pkg, x.Pos(), fn, "field "+li.Type+"."+f+" is protected by "+li.Mutex+" (lock invariant "+li.Text+") but is accessed in a function that is not under contract")
 									}
